@@ -658,8 +658,10 @@ impl SolarMonth {
   pub fn get_days(&self) -> Vec<SolarDay> {
     let y: isize = self.get_year();
     let mut l: Vec<SolarDay> = Vec::new();
-    for i in 1..self.get_day_count() + 1 {
-      l.push(SolarDay::from_ymd(y, self.month, i));
+    // step by day number from the 1st, so that a month with missing dates (October 1582) lists the dates that exist
+    let first: SolarDay = SolarDay::from_ymd(y, self.month, 1);
+    for i in 0..self.get_day_count() {
+      l.push(first.next(i as isize));
     }
     l
   }
